@@ -166,7 +166,9 @@ func vToChannel(rec *Recorder, r *rand.Rand, script []Tok, capacity int, mode, s
 		defer setToChannelPark(nil)
 	}
 	var sub ro.Subscription
-	esc.run(func() { sub = ro.ToChannel[int](capacity)(src.Observable()).SubscribeWithContext(subCtx, chanObserver(rec, rd)) })
+	esc.run(func() {
+		sub = ro.ToChannel[int](capacity)(src.Observable()).SubscribeWithContext(subCtx, chanObserver(rec, rd))
+	})
 	if sub == nil {
 		return "subscribe-failed escaped=" + esc.String()
 	}
